@@ -19,6 +19,7 @@ EXPLANATION = (
   "have the specified truth table, in the snapshot path and in the per-region clone used by the cache; (ORD) display=none prunes "
   "before children are visited, children are visited in document order and appended in that order; (DEF-region) a default region "
   "is synthesised iff the document declares none."
+  " (STATE-alias / STATE-global) no function of the anchored modules mutates a module- or class-level container, rebinds module / class state or mutates a mutable default argument, so a result never depends on earlier calls;"
 )
 RULE_TEXT = "per guard x ordering table, per grid, per call site, per truth table"
 UNDECIDED = ["interval arithmetic under arbitrary nesting as values", "text appears once each, in document order, nothing moved between regions (data dependent)",
